@@ -196,6 +196,7 @@ def run(ck):
         ck.ob("BITMAP", hf_.path, "undefined-header-bits-refused", len(ents) >= 1 and any(any(e.get("raw", [])) for e in ents),
               "unknown feature bits of the v1 header are tested on the raw bitmap and refused", hf_.loc())
     narrowing_len_sweep(ck, crate("rs", "concordium_base"), re.compile(r"concordium_base::transactions::"), re.compile(r"(verify|check)[a-z_0-9]*(::\{closure#\d+\})*$"))
+    gated_verification_sweep(ck, crate("rs", "concordium_base"), re.compile(r"concordium_base::transactions::"), floor=3)
     eq_polarity_sweep(ck, crate("rs", "concordium_base"), re.compile(r"concordium_base::transactions::"), re.compile(r"(verify|check)[a-z_0-9]*(::\{closure#\d+\})*$"))
     rejecting_checks_floor(ck, crate("rs", "concordium_base"), re.compile(r"concordium_base::transactions::"), re.compile(r"(verify|verifier|validate|check|extract_commit_message)[a-z_0-9]*(::\{closure#\d+\})*$"), "C06")
     builder_rules(ck)
